@@ -103,3 +103,12 @@ Theorem c13_magnet_roundtrip : forall h params,
   read_magnet (magnet_of h params) = MgOk h.
 Proof. exact magnet_roundtrip. Qed.
 Print Assumptions c13_magnet_roundtrip.
+
+(* ... and so does its base32 form (RFC 4648, the other spelling hash.Parse accepts): 32 characters that
+   happen to be hexadecimal digits too are still read as base32, because as hex they make 16 bytes. *)
+Theorem c13_magnet_roundtrip_base32 : forall h params,
+  List.length h = 20%nat -> Forall (fun b => b < 256) h ->
+  params = [] \/ (exists r, params = 38 :: r) ->
+  read_magnet (magnet_of_b32 h params) = MgOk h.
+Proof. exact magnet_roundtrip_b32. Qed.
+Print Assumptions c13_magnet_roundtrip_base32.
